@@ -57,14 +57,17 @@ func GetJsonDataType(t dsl.Type) JsonDataType {
 		case dsl.ComplexFloat32, dsl.ComplexFloat64:
 			return JsonArray
 		case dsl.Date, dsl.Time, dsl.DateTime:
-			return JsonNumber
+			// formatted as strings
+			return JsonString
 		default:
 			panic(fmt.Sprintf("unexpected primitive type %s", td))
 		}
 	case *dsl.EnumDefinition:
 		if td.IsFlags {
-			return JsonArray
+			// an array of symbols, or the integer value if it has bits without a symbol
+			return JsonArray | JsonNumber
 		}
+		// the symbol, or the integer value if it has no symbol
 		return JsonString | JsonNumber
 	case *dsl.RecordDefinition:
 		return JsonObject
